@@ -132,6 +132,7 @@ func write(w io.Writer, tpl *Tpl, ctx *Ctx) (err error) {
 			if err == ErrInterrupt {
 				// Interrupt logic.
 				err = nil
+				ctx.Err = nil
 			}
 			return
 		}
